@@ -206,9 +206,9 @@ def parse_spec(path):
                 cur.decreases = c
             else:
                 raise Undecided(f"{path}:{ln}: misplaced {d}")
-        elif d == "proof":
+        elif d in ("proof", "ghost"):
             # //@ proof <where> <anchor...>   where: loop_begin N | before_stmt /regex/ | after_stmt /regex/ | body_begin | body_end
-            c = Clause("proof", label or f"p{ln}", tags, "", where)
+            c = Clause(d, label or f"p{ln}", tags, "", where)
             cur.proofs.append((rest, c))
             cur_clause = c
         else:
@@ -553,7 +553,9 @@ class Unit:
             pre = ""
             if isinstance(pos, tuple):
                 pre, pos = ";", pos[1]
-            eds.append((pos, pos, f"{pre}\n proof {{ {c.text} }}\n", self._ctag(key, c, "proof")))
+            body = f"proof {{ {c.text} }}" if c.kind == "proof" else c.text
+            eds.append((pos, pos, f"{pre}\n {body}\n", self._ctag(key, c, "proof")))
+            self._log("E9", src, pos, "", f"ghost {c.kind} block ({c.where})")
         # E7: ghost unlock marker where a mutex guard goes out of scope
         if self.e7:
             eds += self._e7(src, it, key)
@@ -749,8 +751,13 @@ class Unit:
             self.raw(header + " {")
         self.raw("\n")
         for name in fns:
-            f = src.find_fn_in(im, name)
-            self.fn(src, f, f"{modname}::{self_ty}::{name}")
+            src.find_fn_in(im, name)
+        for f in im["items"]:
+            if f["kind"] == "other":
+                self._apply(src, f["span"][0], f["span"][1], self._strip_attrs_edits(src, *f["span"]))
+                self.raw("\n")
+            elif f["kind"] == "fn" and f["name"] in fns:
+                self.fn(src, f, f"{modname}::{self_ty}::{f['name']}")
         self.raw("}\n")
         return im
 
@@ -764,6 +771,8 @@ class Unit:
         self.raw("\n")
         for f in tr["items"]:
             if f["kind"] != "fn":
+                self._apply(src, f["span"][0], f["span"][1], self._strip_attrs_edits(src, *f["span"]))
+                self.raw("\n")
                 continue
             if fns is not None and f["name"] not in fns:
                 continue
